@@ -406,3 +406,717 @@ fn fuzz_program(r: &mut Rng) -> Option<(Value, Value)> {
     }
     Some((pj, ej))
 }
+
+// ---------------------------------------------------------------------------
+// helpers
+
+const KNOWN_BITS: u32 = 0x3f7f;
+const PY_DEFAULT_MAX_ATOM_LEN: usize = 1 << 20;
+const MAGIC: [u8; 6] = [0xfd, 0xff, 0x32, 0x30, 0x32, 0x36];
+
+fn word_json(w: u32) -> Value {
+    bytes_json(&w.to_le_bytes())
+}
+fn json_word(v: &Value) -> u32 {
+    let b = json_bytes(v);
+    let mut w = 0u32;
+    for (i, x) in b.iter().enumerate().take(4) {
+        w |= (*x as u32) << (8 * i);
+    }
+    w
+}
+
+fn ser_classic(v: &Value) -> Vec<u8> {
+    let mut a = Allocator::new();
+    let n = json_tree(&mut a, v).expect("build tree");
+    node_to_bytes(&a, n).expect("serialize")
+}
+
+fn tree_hash_json(a: &Allocator, root: NodePtr) -> [u8; 32] {
+    use clvmr::allocator::SExp;
+    use clvmr::treehash::{tree_hash_atom, tree_hash_pair};
+    enum Op {
+        Visit(NodePtr),
+        Build,
+    }
+    let mut ops = vec![Op::Visit(root)];
+    let mut vals: Vec<[u8; 32]> = vec![];
+    while let Some(op) = ops.pop() {
+        match op {
+            Op::Visit(n) => match a.sexp(n) {
+                SExp::Atom => vals.push(tree_hash_atom(a.atom(n).as_ref())),
+                SExp::Pair(f, r) => {
+                    ops.push(Op::Build);
+                    ops.push(Op::Visit(r));
+                    ops.push(Op::Visit(f));
+                }
+            },
+            Op::Build => {
+                let r = vals.pop().unwrap();
+                let f = vals.pop().unwrap();
+                vals.push(tree_hash_pair(&f, &r));
+            }
+        }
+    }
+    vals.pop().unwrap()
+}
+
+fn outcome_json(a: &Allocator, r: &Response) -> Value {
+    match r {
+        Ok(Reduction(cost, node)) => json!({"ok": true, "cost": n_le(*cost as u128), "val": tree_json(a, *node)}),
+        Err(e) => json!({"ok": false, "kind": err_kind(e), "msg": e.to_string(), "enode": tree_json(a, e.node_ptr())}),
+    }
+}
+
+// ---------------------------------------------------------------------------
+// run_serialized_chia_program, step by step as wheel/src/api.rs does it
+
+/// Ok(json {al, prog, env, end}) or Err(json prefail record)
+fn binding_run(pb: &[u8], eb: &[u8], budget: u64, word: u32, witness: bool) -> Result<Value, Value> {
+    let fl = ClvmFlags::from_bits_truncate(word);
+    let limited = fl.contains(ClvmFlags::LIMIT_HEAP);
+    let mut a = if limited { Allocator::new_limited(500000000) } else { Allocator::new() };
+    let program = node_from_bytes(&mut a, pb).map_err(|e| json!({"ok": false, "msg": e.to_string(), "which": "program"}))?;
+    let args = node_from_bytes(&mut a, eb).map_err(|e| json!({"ok": false, "msg": e.to_string(), "which": "args"}))?;
+    let al = json!({"atoms": a.atom_count(), "pairs": a.pair_count(), "heap": a.heap_size(),
+                    "limit": if limited { 500000000i64 } else { -1 }});
+    let prog = tree_json(&a, program);
+    let env = tree_json(&a, args);
+    let dialect = ChiaDialect::new(fl);
+    let (r, wit) = if witness {
+        let w = Witness { inner: &dialect, log: RefCell::new(vec![]), unaware: false };
+        let r = run_program(&mut a, &w, program, args, budget);
+        (r, w.log.into_inner())
+    } else {
+        (run_program(&mut a, &dialect, program, args, budget), vec![])
+    };
+    let mut end = outcome_json(&a, &r);
+    end["atoms"] = json!(a.atom_count());
+    end["pairs"] = json!(a.pair_count());
+    end["heap"] = json!(a.heap_size());
+    Ok(json!({"al": al, "prog": prog, "env": env, "end": end, "wit": wit}))
+}
+
+fn run_cases(inp: &str, out: &mut Out) {
+    for c in read_ndjson(inp) {
+        let pb = json_bytes(&c["pbytes"]);
+        let eb = json_bytes(&c["ebytes"]);
+        let budget = le_n(&c["budget"]) as u64;
+        let word = json_word(&c["flagword"]);
+        let vn = c["vn"].as_str().unwrap_or("").to_string();
+        let (pb2, eb2) = (pb.clone(), eb.clone());
+        let plain = catch(move || binding_run(&pb2, &eb2, budget, word, false));
+        let (pb2, eb2) = (pb.clone(), eb.clone());
+        let wit = catch(move || binding_run(&pb2, &eb2, budget, word, true));
+        match plain {
+            Err(p) => {
+                // a panic while replicating the binding: recorded as a run without specification input
+                out.emit(&json!({"ev": "prefail", "case": c["case"], "vn": vn, "pbytes": c["pbytes"], "ebytes": c["ebytes"],
+                    "flagword": c["flagword"], "budget": c["budget"], "pyrels": c["pyrels"], "rust": {"ok": false, "panic": p}}));
+            }
+            Ok(Err(pre)) => {
+                out.emit(&json!({"ev": "prefail", "case": c["case"], "vn": vn, "pbytes": c["pbytes"], "ebytes": c["ebytes"],
+                    "flagword": c["flagword"], "budget": c["budget"], "pyrels": c["pyrels"], "rust": pre}));
+            }
+            Ok(Ok(r)) => {
+                // witnesses of cryptographic operators come from a second, wrapped run of the same input
+                let (witl, wit_same) = match &wit {
+                    Ok(Ok(w)) => {
+                        let same = w["end"]["ok"] == r["end"]["ok"] && w["end"].get("cost") == r["end"].get("cost")
+                            && w["end"].get("val") == r["end"].get("val") && w["end"].get("kind") == r["end"].get("kind");
+                        (w["wit"].clone(), same)
+                    }
+                    _ => (json!([]), false),
+                };
+                out.emit(&json!({"ev": "begin", "case": c["case"], "variant": format!("{vn}rust"), "dialect": "chia",
+                    "flagword": c["flagword"], "flags": flags_json(word & KNOWN_BITS), "budget": c["budget"],
+                    "pbytes": c["pbytes"], "ebytes": c["ebytes"], "prog": r["prog"], "env": r["env"], "al": r["al"],
+                    "wit": witl, "wit_same": wit_same}));
+                let mut end = r["end"].clone();
+                end["ev"] = json!("end");
+                end["case"] = c["case"].clone();
+                end["variant"] = json!(format!("{vn}rust"));
+                end["rels"] = json!([]);
+                end["pyrels"] = c["pyrels"].clone();
+                end["vn"] = json!(vn);
+                out.emit(&end);
+            }
+        }
+    }
+}
+
+// ---------------------------------------------------------------------------
+// run case generator
+
+fn tmpl(r: &mut Rng) -> (Value, Value) {
+    let a = |b: &[u8]| atom_json(b);
+    let nil = atom_json(&[]);
+    let k = r.below(16);
+    let p = match k {
+        0 => list_json(&[a(&[8])]),                                                // (x)
+        1 => list_json(&[a(&[8]), q(int_atom(r.range(-5, 500)))]),                 // (x (q . n))
+        2 => list_json(&[a(&[19]), q(int_atom(r.range(-9, 9))), q(nil.clone())]),  // (/ n 0)
+        3 => list_json(&[a(&[23]), q(int_atom(1)), q(int_atom(70000))]),           // shift too large
+        4 => list_json(&[a(&[5]), a(&[1])]),                                       // (f 1) on an atom environment
+        5 => a(&[r.below(60) as u8 + 4]),                                          // path into a short environment
+        6 => json!({"f": json!({"f": a(&[1]), "r": a(&[2])}), "r": nil.clone()}),  // ((1 . 2))
+        7 => list_json(&[a(&[0xff, 0xff]), q(int_atom(1))]),                       // reserved opcode
+        8 => list_json(&[a(&[2]), q(int_atom(1))]),                                // (a x): wrong arity
+        9 => json!({"f": a(&[16]), "r": a(&[5])}),                                 // improper operand list
+        10 => list_json(&[a(&[14]), q(list_json(&[int_atom(1), int_atom(2)]))]),   // concat on a pair
+        11 => list_json(&[a(&[36]), q(int_atom(200)), q(int_atom(r.range(0, 3))), q(list_json(&[a(&[16]), q(int_atom(1))])), q(nil.clone())]),
+        12 => list_json(&[a(&[0x7f & r.next() as u8 | 0x40]), q(int_atom(7)), q(a(&[1, 2, 3]))]), // unknown operator
+        13 => list_json(&[a(&[60]), q(int_atom(3)), q(int_atom(r.range(-2, 5))), q(int_atom(r.range(-1, 3)))]), // modpow
+        14 => list_json(&[a(&[63]), q(rand_tree(r, 9, 8, 30))]),                   // sha256tree (flag dependent)
+        _ => list_json(&[a(&[62]), q(a(&[1, 2, 3]))]),                             // keccak256 (flag dependent)
+    };
+    let e = if k == 5 { list_json(&[int_atom(1), int_atom(2)]) } else if r.chance(1, 2) { nil } else { rand_tree(r, 8, 8, 20) };
+    (p, e)
+}
+
+fn gen_word(r: &mut Rng) -> u32 {
+    let mut f = 0u32;
+    for (bit, den) in [(0x2000u32, 3u64), (0x0400, 2), (0x0100, 4), (0x0800, 5), (0x0002, 6), (0x0001, 8), (0x0004, 6), (0x0020, 4),
+                       (0x0010, 8), (0x0040, 10), (0x0200, 10), (0x0008, 10), (0x1000, 6)] {
+        if r.chance(1, den) {
+            f |= bit;
+        }
+    }
+    match r.below(10) {
+        0..=3 => f,
+        4..=6 => f | (r.next() as u32 & !KNOWN_BITS),          // unknown bits set
+        7 => f | 0x80 | 0x4000 | 0x8000_0000,
+        8 => r.next() as u32,                                   // any word
+        _ => 0,
+    }
+}
+
+fn gen_run(seed: u64, n: u64, out: &mut Out) {
+    let mut r = Rng::new(seed ^ 0x7079);
+    let mut case = 0u64;
+    let mut made = 0u64;
+    let mut tries = 0u64;
+    while made < n && tries < n * 20 {
+        tries += 1;
+        let pick = r.below(100);
+        let (prog, env) = if pick < 20 {
+            match fuzz_program(&mut r) {
+                Some(x) => x,
+                None => continue,
+            }
+        } else if pick < 32 {
+            tmpl(&mut r)
+        } else {
+            let mut pg = PG { r: &mut r, newer: true, guards: true, crypto: true, unknown: true };
+            let depth = 1 + pg.r.below(4) as u32;
+            let p = pg.expr(depth);
+            let e = if pg.r.chance(1, 3) { rand_tree(pg.r, 12, 8, 20) } else { list_json(&[pg.value(), pg.value(), pg.value()]) };
+            (p, e)
+        };
+        let nvar = 1 + r.below(3);
+        let w0 = gen_word(&mut r);
+        let prog = fix_guards(&mut r, &prog, w0 & KNOWN_BITS);
+        if tree_depth(&prog) > 120 || tree_depth(&env) > 120 {
+            continue;
+        }
+        let pb = ser_classic(&prog);
+        let eb = ser_classic(&env);
+        let mut heavy = false;
+        for v in 0..nvar {
+            let word = if v == 0 { w0 } else if r.chance(1, 2) { w0 ^ (r.next() as u32 & !KNOWN_BITS) } else { gen_word(&mut r) };
+            // probe the cost under this word to aim budgets at it
+            let (pb2, eb2) = (pb.clone(), eb.clone());
+            let probe = catch(move || binding_run(&pb2, &eb2, 0, word, false));
+            let c = match &probe {
+                Ok(Ok(x)) if x["end"]["ok"] == json!(true) => Some(le_n(&x["end"]["cost"]) as u64),
+                _ => None,
+            };
+            if c.map(|c| c > 1_200_000).unwrap_or(false) {
+                heavy = true;
+                break;
+            }
+            let budget = match (c, r.below(10)) {
+                (_, 0..=2) => 0,
+                (Some(c), 3) => c,
+                (Some(c), 4) => c.saturating_sub(1).max(1),
+                (Some(c), 5) => c + 1,
+                (Some(c), 6) => 1 + r.below(c + 2),
+                (_, 7) => u64::MAX >> r.below(30),
+                (_, 8) => 1 + r.below(3000),
+                _ => 0,
+            };
+            // the serialized input as the caller hands it over
+            let (mut p2, mut e2) = (pb.clone(), eb.clone());
+            match r.below(40) {
+                0 => {
+                    // back-reference serialization: the binding uses the classic decoder
+                    let mut a = Allocator::new();
+                    let nn = json_tree(&mut a, &prog).unwrap();
+                    p2 = node_to_bytes_backrefs(&a, nn).unwrap();
+                }
+                1 => {
+                    let mut a = Allocator::new();
+                    let nn = json_tree(&mut a, &prog).unwrap();
+                    p2 = serialize_2026(&a, nn, 0).unwrap();
+                }
+                2 => {
+                    let k = r.below(p2.len() as u64) as usize;
+                    p2.truncate(k);
+                }
+                3 => {
+                    let k = r.below(e2.len() as u64) as usize;
+                    e2.truncate(k);
+                }
+                4 => p2.extend_from_slice(&r.bytes(3)),                // trailing bytes are ignored
+                5 => {
+                    let k = r.below(p2.len() as u64) as usize;
+                    p2[k] = r.next() as u8;
+                }
+                6 => {
+                    // non-minimal length prefix for a one-byte environment
+                    e2 = vec![0xc0, 0x01, 0x05];
+                }
+                7 => e2 = vec![0xfe, 0x00, 0x00, 0x00, 0x00, 0x00, 0x01, 0x41],   // 7-byte prefix: refused by the Rust decoder
+                _ => {}
+            }
+            out.emit(&json!({"case": case, "vn": "", "pbytes": bytes_json(&p2), "ebytes": bytes_json(&e2),
+                "budget": n_le(budget as u128), "flagword": word_json(word), "pyrels": []}));
+            case += 1;
+        }
+        if !heavy {
+            made += 1;
+        }
+    }
+}
+
+// ---------------------------------------------------------------------------
+// codec cases (C26): deser_* / ser_* / serialized_length / deserialize_as_tree
+
+fn codec_tree(r: &mut Rng) -> Value {
+    match r.below(40) {
+        0 | 1 => {
+            // a long list (deep on the right)
+            let n = 60 + r.below(240) as usize;
+            let items: Vec<Value> = (0..n).map(|i| if i % 7 == 0 { atom_json(&[1, 2, 3, 4, 5]) } else { int_atom((i % 50) as i64) }).collect();
+            list_json(&items)
+        }
+        2 => {
+            // deep on the left
+            let mut t = atom_json(&[]);
+            for i in 0..(60 + r.below(100)) {
+                t = json!({"f": t, "r": int_atom((i % 3) as i64)});
+            }
+            t
+        }
+        3 => {
+            // atoms at the length-prefix boundaries
+            let n = *r.pick(&[63usize, 64, 65, 8191, 8192]);
+            let b = vec![r.next() as u8; n];
+            json!({"f": atom_json(&b), "r": json!({"f": atom_json(&b), "r": atom_json(&[0x80])})})
+        }
+        _ => {
+            let budget = 1 + r.below(40) as usize;
+            let share = *r.pick(&[0u64, 10, 30, 60]);
+            rand_tree(r, budget, 12, share)
+        }
+    }
+}
+
+fn deser_rust(func: &str, blob: &[u8], max: usize, strict: bool, level: u32) -> Value {
+    let mut a = Allocator::new();
+    let res: Result<NodePtr, String> = match func {
+        "deser_legacy" => node_from_bytes(&mut a, blob).map_err(|e| e.to_string()),
+        "deser_backrefs" => node_from_bytes_backrefs(&mut a, blob).map_err(|e| e.to_string()),
+        "deser_2026" => deserialize_2026(&mut a, blob, max, strict).map_err(|e| {
+            if !blob.starts_with(&MAGIC) {
+                "deser_2026: blob is missing the serde_2026 magic prefix".to_string()
+            } else {
+                e.to_string()
+            }
+        }),
+        _ => {
+            if let Some(body) = blob.strip_prefix(&MAGIC[..]) {
+                deserialize_2026_body_from_stream(&mut a, &mut Cursor::new(body), max, strict).map_err(|e| e.to_string())
+            } else {
+                node_from_bytes_backrefs(&mut a, blob).map_err(|e| e.to_string())
+            }
+        }
+    };
+    match res {
+        Err(m) => json!({"ok": false, "msg": m}),
+        Ok(n) => {
+            let f = |x: Result<Vec<u8>, EvalErr>| match x {
+                Ok(b) => bytes_json(&b),
+                Err(e) => json!({"err": e.to_string()}),
+            };
+            json!({"ok": true, "tree": tree_json(&a, n), "ser_legacy": f(node_to_bytes(&a, n)),
+                   "ser_backrefs": f(node_to_bytes_backrefs(&a, n)), "ser_2026": f(serialize_2026(&a, n, level))})
+        }
+    }
+}
+
+fn triples_json(t: &[ParsedTriple]) -> Value {
+    Value::Array(t.iter().map(|p| match p {
+        ParsedTriple::Atom { start, end, atom_offset } => json!([start, end, atom_offset]),
+        ParsedTriple::Pair { start, end, right_index } => json!([start, end, right_index]),
+    }).collect())
+}
+
+fn mutate(r: &mut Rng, blob: &mut Vec<u8>) -> &'static str {
+    match r.below(20) {
+        0 | 1 => {
+            let k = r.below(blob.len() as u64 + 1) as usize;
+            blob.truncate(k);
+            "truncate"
+        }
+        2 | 3 => {
+            if !blob.is_empty() {
+                let k = r.below(blob.len() as u64) as usize;
+                blob[k] = *r.pick(&[0u8, 1, 0x7f, 0x80, 0xfe, 0xff, 0xc0, 0xfd]);
+            }
+            "set-byte"
+        }
+        4 => {
+            if !blob.is_empty() {
+                let k = r.below(blob.len() as u64) as usize;
+                blob[k] ^= 1 << r.below(8);
+            }
+            "flip-bit"
+        }
+        5 => {
+            blob.extend_from_slice(&r.bytes(1 + r.below(4) as usize));
+            "trailing"
+        }
+        6 => {
+            let n = r.below(12) as usize;
+            *blob = r.bytes(n);
+            "random"
+        }
+        7 => {
+            let k = r.below(blob.len() as u64 + 1) as usize;
+            blob.insert(k, 0xfe);
+            "insert-fe"
+        }
+        8 => {
+            let mut b = MAGIC.to_vec();
+            b.extend_from_slice(&r.bytes(r.below(8) as usize));
+            *blob = b;
+            "magic-junk"
+        }
+        _ => "none",
+    }
+}
+
+fn gen_codec(seed: u64, n: u64, out: &mut Out) {
+    let mut r = Rng::new(seed ^ 0xc0dec);
+    for case in 0..n {
+        let tree = codec_tree(&mut r);
+        let mut a = Allocator::new();
+        let node = json_tree(&mut a, &tree).unwrap();
+        let fmt = *r.pick(&["classic", "backrefs", "2026", "2026"]);
+        let mut blob = match fmt {
+            "classic" => node_to_bytes(&a, node).unwrap(),
+            "backrefs" => node_to_bytes_backrefs(&a, node).unwrap(),
+            _ => serialize_2026(&a, node, 0).unwrap(),
+        };
+        let mutation = mutate(&mut r, &mut blob);
+        // options as the Python caller passes them (absent = the binding's default)
+        let max: Option<usize> = match r.below(10) {
+            0 => Some(0), 1 => Some(1), 2 => Some(*r.pick(&[2usize, 5, 12, 63, 64])), 3 => Some(1 << 20), 4 => Some(8191), _ => None,
+        };
+        let strict: Option<bool> = match r.below(4) { 0 => Some(false), 1 => Some(true), _ => None };
+        let level: Option<u32> = match r.below(6) { 0 => Some(0), 1 => Some(1), 2 => Some(7), 3 => Some(u32::MAX), _ => None };
+        let maxv = max.unwrap_or(PY_DEFAULT_MAX_ATOM_LEN);
+        let strictv = strict.unwrap_or(true);
+        for func in ["deser_legacy", "deser_backrefs", "deser_2026", "deser_auto"] {
+            let blob2 = blob.clone();
+            let lv = level.unwrap_or(0);
+            let rust = catch(move || deser_rust(func, &blob2, maxv, strictv, lv)).unwrap_or_else(|p| json!({"panic": p}));
+            out.emit(&json!({"ev": "deser", "case": case, "fn": func, "fmt": fmt, "mutation": mutation, "blob": bytes_json(&blob),
+                "max": n_le(maxv as u128), "strict": strictv,
+                "opt_max": max.map(|m| m.to_string()), "opt_strict": strict, "opt_level": level.map(|l| l.to_string()),
+                "rust": rust}));
+        }
+        if case % 2 == 0 {
+            let rust = match serialized_length_from_bytes(&blob) {
+                Ok(l) => json!({"ok": true, "len": l}),
+                Err(e) => json!({"ok": false, "msg": e.to_string()}),
+            };
+            out.emit(&json!({"ev": "len", "case": case, "blob": bytes_json(&blob), "rust": rust}));
+            let hashes = r.chance(1, 2);
+            let rust = match parse_triples(&mut Cursor::new(&blob[..]), hashes) {
+                Ok((t, h)) => json!({"ok": true, "triples": triples_json(&t),
+                    "hashes": h.map(|hs| Value::Array(hs.iter().map(|x| bytes_json(x)).collect()))}),
+                Err(e) => json!({"ok": false, "msg": e.to_string()}),
+            };
+            out.emit(&json!({"ev": "triples", "case": case, "blob": bytes_json(&blob), "hashes": hashes, "rust": rust}));
+        }
+    }
+}
+
+// ---------------------------------------------------------------------------
+// trees (C27 conversion, C28 pure-Python serializer)
+
+fn gen_trees(seed: u64, n: u64, out: &mut Out) {
+    let mut r = Rng::new(seed ^ 0x7ee5);
+    for case in 0..n {
+        let tree = match r.below(30) {
+            0 => atom_json(&rand_atom_bytes(&mut r, 12)),
+            1..=3 => codec_tree(&mut r),
+            4..=9 => {
+                // complete-ish trees of depth up to 6 over few atom values (the F1 probe's shape)
+                fn full(r: &mut Rng, d: u32) -> Value {
+                    if d == 0 || r.chance(1, 5) {
+                        atom_json(&[r.below(4) as u8 + 0x61])
+                    } else {
+                        let f = full(r, d - 1);
+                        let rr = full(r, d - 1);
+                        json!({"f": f, "r": rr})
+                    }
+                }
+                let d = 1 + r.below(6) as u32;
+                full(&mut r, d)
+            }
+            _ => {
+                let budget = 1 + r.below(50) as usize;
+                let share = *r.pick(&[0u64, 20, 50]);
+                rand_tree(&mut r, budget, 12, share)
+            }
+        };
+        let mut a = Allocator::new();
+        let node = json_tree(&mut a, &tree).unwrap();
+        let bytes = node_to_bytes(&a, node).unwrap();
+        let h = tree_hash_json(&a, node);
+        out.emit(&json!({"ev": "tree", "case": case, "tree": tree, "bytes": bytes_json(&bytes), "hash": bytes_json(&h)}));
+    }
+}
+
+// ---------------------------------------------------------------------------
+// byte strings for the pure-Python stream decoders (C28)
+
+fn gen_blobs(seed: u64, n: u64, out: &mut Out) {
+    let mut r = Rng::new(seed ^ 0xb10b5);
+    for case in 0..n {
+        let tree = if r.chance(1, 4) { atom_json(&rand_atom_bytes(&mut r, 20)) } else { let b = 1 + r.below(24) as usize; rand_tree(&mut r, b, 10, 20) };
+        let mut a = Allocator::new();
+        let node = json_tree(&mut a, &tree).unwrap();
+        let mut blob = node_to_bytes(&a, node).unwrap();
+        let class = match r.below(24) {
+            0..=7 => "valid",
+            8 | 9 => {
+                // re-encode the length prefix of the first prefixed atom with a wider prefix class
+                let width = *r.pick(&[2usize, 3, 4, 5, 6, 7, 7, 7]);
+                let mut i = 0usize;
+                let mut done = false;
+                while i < blob.len() {
+                    let b = blob[i];
+                    if b == 0xff || b < 0x80 {
+                        i += 1;
+                        continue;
+                    }
+                    if b >= 0x80 && b < 0xc0 {
+                        let len = (b & 0x3f) as usize;
+                        let mut pre = vec![0u8; width];
+                        pre[0] = (0xffu16 << (8 - width)) as u8;
+                        pre[width - 1] |= len as u8;
+                        if width == 1 { pre[0] = 0x80 | len as u8; }
+                        blob.splice(i..i + 1, pre);
+                        done = true;
+                    }
+                    break;
+                }
+                if !done {
+                    // no prefixed atom first: put a 7-byte-prefix atom in front as the left element of a pair
+                    let mut b2 = vec![0xff, 0xfe, 0, 0, 0, 0, 0, 1, 0x41];
+                    b2.extend_from_slice(&blob);
+                    blob = b2;
+                }
+                "wide-prefix"
+            }
+            10 => {
+                blob = vec![0xfe, 0, 0, 0, 0, 0, r.below(4) as u8];
+                let k = blob[6] as usize;
+                blob.extend_from_slice(&r.bytes(k + r.below(2) as usize));
+                "fe-prefix"
+            }
+            11 => {
+                blob = vec![*r.pick(&[0xfcu8, 0xfd, 0xfe]), *r.pick(&[0u8, 3, 4, 0x80]), 0, 0, 0, *r.pick(&[0u8, 2])];
+                blob.extend_from_slice(&r.bytes(r.below(4) as usize));
+                "big-size"
+            }
+            12 => {
+                blob = node_to_bytes_backrefs(&a, node).unwrap();
+                "backrefs"
+            }
+            13 | 14 => {
+                let k = r.below(blob.len() as u64 + 1) as usize;
+                blob.truncate(k);
+                "truncate"
+            }
+            15 | 16 => {
+                let n = r.below(10) as usize;
+                blob = r.bytes(n);
+                "random"
+            }
+            17 | 18 => {
+                if !blob.is_empty() {
+                    let k = r.below(blob.len() as u64) as usize;
+                    blob[k] = *r.pick(&[0xfeu8, 0xff, 0x80, 0xc0, 0xe0, 0xf0, 0xf8, 0xfc]);
+                }
+                "set-byte"
+            }
+            19 => {
+                blob.extend_from_slice(&r.bytes(1 + r.below(3) as usize));
+                "trailing"
+            }
+            _ => {
+                let k = r.below(blob.len() as u64 + 1) as usize;
+                blob.insert(k, 0xfe);
+                "insert-fe"
+            }
+        };
+        let blob2 = blob.clone();
+        let rust = catch(move || {
+            let mut a = Allocator::new();
+            let mut c = Cursor::new(&blob2[..]);
+            match node_from_stream(&mut a, &mut c) {
+                Ok(nn) => json!({"ok": true, "tree": tree_json(&a, nn), "used": c.position()}),
+                Err(e) => json!({"ok": false, "msg": e.to_string()}),
+            }
+        }).unwrap_or_else(|p| json!({"panic": p}));
+        let blob2 = blob.clone();
+        let rt = catch(move || match parse_triples(&mut Cursor::new(&blob2[..]), true) {
+            Ok((t, h)) => json!({"ok": true, "triples": triples_json(&t),
+                "hashes": h.map(|hs| Value::Array(hs.iter().map(|x| bytes_json(x)).collect()))}),
+            Err(e) => json!({"ok": false, "msg": e.to_string()}),
+        }).unwrap_or_else(|p| json!({"panic": p}));
+        out.emit(&json!({"ev": "pydeser", "case": case, "class": class, "blob": bytes_json(&blob), "rust": rust, "rust_triples": rt}));
+    }
+}
+
+// ---------------------------------------------------------------------------
+// integers (C28)
+
+fn number_of(neg: bool, mag_le: &[u8]) -> Number {
+    let mut n = Number::from(0u8);
+    for d in mag_le.iter().rev() {
+        n = (n << 8usize) + Number::from(*d);
+    }
+    if neg { -n } else { n }
+}
+
+fn gen_ints(seed: u64, n: u64, out: &mut Out) {
+    let mut r = Rng::new(seed ^ 0x1275);
+    for case in 0..n {
+        if case % 2 == 0 {
+            // integer -> atom
+            let mut mag: Vec<u8> = match r.below(6) {
+                0 => {
+                    // +-2^(8k-1) +- {0,1}
+                    let k = 1 + r.below(12) as usize;
+                    let mut m = vec![0u8; k];
+                    m[k - 1] = 0x80;
+                    match r.below(3) {
+                        0 => {}
+                        1 => m[0] |= 1,
+                        _ => {
+                            // minus one
+                            m = vec![0xff; k];
+                            m[k - 1] = 0x7f;
+                        }
+                    }
+                    m
+                }
+                1 => vec![r.below(256) as u8],
+                2 => vec![r.below(256) as u8, r.below(256) as u8],
+                3 => vec![0xff; 1 + r.below(9) as usize],
+                4 => vec![],
+                _ => {
+                    let k = 1 + r.below(40) as usize;
+                    r.bytes(k)
+                }
+            };
+            while mag.last() == Some(&0) {
+                mag.pop();
+            }
+            let neg = !mag.is_empty() && r.chance(1, 2);
+            let (m2, neg2) = (mag.clone(), neg);
+            let rust = catch(move || {
+                let mut a = Allocator::new();
+                let nn = a.new_number(number_of(neg2, &m2)).unwrap();
+                bytes_json(a.atom(nn).as_ref())
+            }).unwrap_or_else(|p| json!({"panic": p}));
+            out.emit(&json!({"ev": "int", "case": case, "dir": "to", "neg": neg, "mag": bytes_json(&mag), "rust": rust}));
+        } else {
+            let b: Vec<u8> = match r.below(5) {
+                0 => r.pick(BOUNDARY_ATOMS).to_vec(),
+                1 => {
+                    let mut v = vec![*r.pick(&[0u8, 0xff]); 1 + r.below(3) as usize];
+                    v.extend_from_slice(&r.bytes(r.below(4) as usize));
+                    v
+                }
+                _ => { let k = r.below(20) as usize; r.bytes(k) }
+            };
+            let v = number_from_u8(&b);
+            let neg = v < Number::from(0u8);
+            let mag = v.magnitude().to_bytes_le();
+            let mag: Vec<u8> = if mag == [0] { vec![] } else { mag };
+            out.emit(&json!({"ev": "int", "case": case, "dir": "from", "bytes": bytes_json(&b),
+                "rust": {"neg": neg, "mag": bytes_json(&mag)}}));
+        }
+    }
+}
+
+// ---------------------------------------------------------------------------
+// curry cases (C28)
+
+fn gen_curry(seed: u64, n: u64, out: &mut Out) {
+    let mut r = Rng::new(seed ^ 0xc0771);
+    for case in 0..n {
+        let nargs = r.below(5) as usize;
+        let mut pg = PG { r: &mut r, newer: true, guards: false, crypto: false, unknown: true };
+        let m = match pg.r.below(6) {
+            0 => {
+                // a module that adds up its first arguments: (+ 2 5 11 ..)
+                let mut items = vec![atom_json(&[16])];
+                let paths: [&[u8]; 4] = [&[2], &[5], &[11], &[23]];
+                for p in paths.iter().take(1 + pg.r.below(4) as usize) {
+                    items.push(atom_json(p));
+                }
+                list_json(&items)
+            }
+            1 => atom_json(&[1]),                       // returns its whole environment
+            2 => list_json(&[atom_json(&[4]), atom_json(&[2]), atom_json(&[3])]),   // (c 2 3)
+            3 => atom_json(&rand_atom_bytes(pg.r, 3)),  // a path (or nil)
+            _ => { let d = 1 + pg.r.below(3) as u32; pg.expr(d) }
+        };
+        let args: Vec<Value> = (0..nargs).map(|_| pg.value()).collect();
+        let env = if pg.r.chance(1, 3) { atom_json(&[]) } else { list_json(&[pg.value(), pg.value()]) };
+        if tree_depth(&m) > 60 {
+            continue;
+        }
+        out.emit(&json!({"ev": "currycase", "case": case, "m": m, "args": args, "env": env}));
+    }
+}
+
+fn main() {
+    let args: Vec<String> = std::env::args().collect();
+    let cmd = args.get(1).map(|s| s.as_str()).unwrap_or("");
+    let mut out = Out::create(&arg(&args, "--out").unwrap_or("-".into()));
+    let seed = arg_u64(&args, "--seed", 1);
+    let n = arg_u64(&args, "--n", 100);
+    match cmd {
+        "gen-run" => gen_run(seed, n, &mut out),
+        "run-cases" => run_cases(&arg(&args, "--in").expect("--in"), &mut out),
+        "gen-codec" => gen_codec(seed, n, &mut out),
+        "gen-trees" => gen_trees(seed, n, &mut out),
+        "gen-blobs" => gen_blobs(seed, n, &mut out),
+        "gen-ints" => gen_ints(seed, n, &mut out),
+        "gen-curry" => gen_curry(seed, n, &mut out),
+        _ => {
+            eprintln!("usage: pyref gen-run|run-cases|gen-codec|gen-trees|gen-blobs|gen-ints|gen-curry ...");
+            std::process::exit(2);
+        }
+    }
+    out.flush();
+}
